@@ -2,6 +2,7 @@ import SageModel.Proto
 import SageModel.Generated.Consts
 import SageModel.Model.C06
 import SageModel.Model.C05
+import SageModel.Model.C06Db
 
 /-! Driver ops for C06.
 
@@ -31,6 +32,11 @@ pepdisplay <same arguments as apply>
    | err:invalid | ok <ntab> {<f32> <text:hex>} <nforms> {form <display:hex>}
         (`to_string()` of every form; the `{:+}` text of each shown mass is data. The model recomputes every
          display string from the implementation's own fields with `display` and the table as `fmt`.)
+dbmulti <7 opt EnzymeBuilder fields> <k> {<protein:hex>}*k <max> <vars> <statics>
+   | panic | ok <n> {<seq:hex> form <position 0..3> <j> <protein index>*j}
+        (Parameters::digest on a FASTA of k target proteins P0..P(k-1), no decoys, no mass bounds: every database
+         entry with its protein list and its `position` field; sorted. Model: Model/C06Db.lean — group_digests groups
+         by (position, sequence); equal forms of different groups are merged, proteins united, position = min.)
 All float comparisons are bit-exact (only `+` in a fixed order is involved).
 -/
 namespace Sage.C06
@@ -327,6 +333,56 @@ def handle (op : String) (args impl : List String) : Option Reply :=
       let ok := (tryFrom H2Of tableF pos seq).isNone
       pure { model := if ok then "err:invalid" else "ok", agree := ok, spec := if ok then "ok" else "bad:valid_sequence_rejected" }
     | _ => pure { model := "unreadable", agree := false, spec := "bad:reply_unreadable" }
+  | "dbmulti" => do
+    let (b, prots, max, vars, statics) ← run (do
+      let b ← pBuilder5; let prots ← list bytes; let max ← nat
+      let v ← varMods; let s ← staticMods
+      pure (b, prots, max, v, s)) args
+    let varsV : List (Target × Nat) := validateVar vars
+    let staticsV : List (Target × Nat) := validate statics
+    let varsF := varsV.map fun tm => (tm.1, f32b tm.2)
+    let staticsF := staticsV.map fun tm => (tm.1, f32b tm.2)
+    let max := if max == 0 then 1 else max
+    let ninf : Float32 := f32b 4286578688
+    let pinf : Float32 := f32b 2139095040
+    let same (a c : Peptide Float32) : Bool := a.sequence == c.sequence && formToks a == formToks c
+    let entryToks (e : Entry Float32) : List Nat :=
+      pepToks e.pep ++ [posRank e.pep.position, e.prots.length] ++ e.prots
+    let model : String :=
+      match b.toParams with
+      | none => "panic"
+      | some par =>
+        match database H2Of tableF same par prots varsF staticsF max ninf pinf with
+        | none => "panic"
+        | some es =>
+          let rows := (es.map fun e => (entryToks e, e)).mergeSort fun x y => lexLe x.1 y.1
+          "ok " ++ " ".intercalate (toString rows.length :: rows.map fun r =>
+            hex (r.2.pep.sequence.map Nat.toUInt8) ++ " " ++
+            " ".intercalate ((formToks r.2.pep ++ [posRank r.2.pep.position, r.2.prots.length] ++ r.2.prots).map toString))
+    let spec : String :=
+      match impl, b.toParams with
+      | "ok" :: rest, some par =>
+        match run (list (do
+            let sw ← wirePep; let _pos ← nat; let ps ← list nat; pure (sw.1, sw.2, ps))) rest with
+        | none => "bad:reply_unreadable"
+        | some rows =>
+          let occs := occsOf par prots
+          let tk (r : List Nat × WireForm × List Nat) : List Nat := r.1.length :: r.1 ++ wireToks r.2.1
+          if !nodupB (rows.map tk) then "bad:form_listed_twice" else
+          match ratMods varsV, ratMods staticsV, allSome (rows.map fun r => r.2.1.toRat) with
+          | some varsQ, some staticsQ, some forms =>
+            if varsQ.any (·.2 == 0) || staticsQ.any (·.2 == 0) then "na" else
+            if occs.any (fun o => !staticsDisjoint o.seq o.pos staticsV) then "na" else
+            let obs : List ObsEntry := (rows.zip forms).map fun rf => { seq := rf.1.1, form := rf.2.1, prots := rf.1.2.2 }
+            let v := multiVerdict occs varsQ staticsQ max obs
+            if v != "ok" then v else
+            if (rows.zip forms).any (fun rf =>
+                decide (absRat (rf.2.2 - refMass rf.1.1 rf.2.1) > massAllowance rf.1.1 rf.2.1)) then "bad:mass_formula"
+            else "ok"
+          | _, _, _ => "na"
+      | ["panic"], _ => "na"
+      | _, _ => "bad:reply_unreadable"
+    pure (exact model (" ".intercalate impl) spec)
   | "dbdigest" => do
     let (b, prot, max, lo, hi, vars, statics) ← run (do
       let b ← pBuilder5; let prot ← bytes; let max ← nat; let lo ← nat; let hi ← nat
